@@ -60,6 +60,48 @@ HARNESS_OK = True
 HARNESS_BUILD_ERROR = ""
 
 
+def sync_manifest():
+    """The harness compiles harper-ls and harper-cli sources inside its own package (#[path] modules, the two
+    -real binaries), so it needs every dependency those crates declare.  Dependencies their manifests name and the
+    harness manifest lacks are appended (between two marker lines) before building; nothing else is touched."""
+    import tomllib
+    mf = os.path.join(HARNESS, "Cargo.toml")
+    text = open(mf).read()
+    begin, end = "# >>> dependencies followed from the repository's manifests\n", "# <<<\n"
+    if begin in text:
+        text = text[:text.index(begin)] + text[text.index(end) + len(end):]
+    have = tomllib.loads(text).get("dependencies", {})
+    extra = []
+    for crate in ("harper-ls", "harper-cli"):
+        try:
+            deps = tomllib.load(open(os.path.join(REPO, crate, "Cargo.toml"), "rb")).get("dependencies", {})
+        except Exception:
+            continue
+        for name, spec in deps.items():
+            if name in have or any(x[0] == name for x in extra):
+                continue
+            if isinstance(spec, str):
+                extra.append((name, json.dumps(spec)))
+            else:
+                parts = []
+                for k, val in spec.items():
+                    if k == "path":
+                        val = os.path.normpath(os.path.join(REPO, crate, val))
+                    elif k == "version" and "path" in spec:
+                        continue
+                    parts.append(f"{k} = {json.dumps(val)}")
+                extra.append((name, "{ " + ", ".join(parts) + " }"))
+    if extra:
+        block = begin + "".join(f"{n} = {v}\n" for n, v in extra) + end
+        # the generated block belongs to [dependencies]: put it right after that table's header
+        head = "[dependencies]\n"
+        i = text.index(head) + len(head)
+        text = text[:i] + block + text[i:]
+    if text != open(mf).read():
+        open(mf, "w").write(text)
+        log("[build] harness manifest: followed " + (", ".join(n for n, _ in extra) or "no extra dependencies"))
+
+
 def build_harness(protocol_only_ok=False):
     """Rebuild the harness against /repo's working tree with --cfg harper_verif."""
     global _built
@@ -73,6 +115,7 @@ def build_harness(protocol_only_ok=False):
     import fcntl
     with open(lock, "w") as lf:
         fcntl.flock(lf, fcntl.LOCK_EX)
+        sync_manifest()
         p = subprocess.run(["cargo", "build", "--release", "--offline", "--quiet"],
                            cwd=HARNESS, env=env, stdout=subprocess.PIPE,
                            stderr=subprocess.STDOUT, text=True)
